@@ -396,7 +396,7 @@ def warmup():
 def run(ctx):
     thorough = ctx.tier == "thorough"
     warmup()
-    ctx.proofs(["C04/Props.v", "C04/PropsConsts.v"])
+    ctx.proofs(["C04/Props.v", "C04/PropsConsts.v", "C04/PropsTie.v"])
     lps = fixed_lps() + [gen_lp(ctx.rng) for _ in range(2400 if thorough else 520)]
     cases, fcases, outs = [], [], []
     for idx, lp in enumerate(lps):
